@@ -65,6 +65,14 @@ pub fn main(args: &[String]) -> i32 {
     ]
     .iter()
     .map(|s| json!({"src": s, "parts": {}, "data": {}}).to_string())
+    // values whose printed form is produced piecewise (arrays, objects, nested): one logical write, many physical ones
+    .chain(["{{ arr }}|{{ nest }}", "{% for x in nest %}{{ x }};{% endfor %}{{ arr | join: ', ' }}{{ obj }}"].iter().map(|s| {
+        json!({"src": s, "parts": {}, "data": {
+            "arr": {"k": "arr", "a": [{"k": "int", "n": 1}, {"k": "str", "s": "two"}, {"k": "int", "n": 3}]},
+            "nest": {"k": "arr", "a": [{"k": "arr", "a": [{"k": "int", "n": 4}, {"k": "int", "n": 5}]}, {"k": "str", "s": "x"}]},
+            "obj": {"k": "obj", "o": {"k": {"k": "int", "n": 9}}}}})
+        .to_string()
+    }))
     .collect();
     let n_corpus = lines.len();
     lines.extend(extra.iter().map(|s| s.as_str()));
